@@ -159,6 +159,11 @@ def py_checks(case, r):
         A = case["A"]
         o = a["o"]
         leaves = any((e[0] + o < 0 or e[-2] + o > 30) for t in A for e in t["entries"])
+        # on the decimal grid a shifted time that equals the span's end in decimal arithmetic may be one ulp past it
+        # as binary64 values (0.28 + 0.02 > 0.3): whether it "leaves the span" is then a fact about rounding, not judged here
+        edge = case["scale"][0] == "decimal" and any((e[0] + o == 0 or e[-2] + o == 30) for t in A for e in t["entries"])
+        if edge:
+            return []
         if a["mode"] == "error" and leaves:
             return [] if r.get("err") in ("OutOfBounds", "TextgridStateAutoModified") else ["error mode did not raise: %r" % (r,)]
         if "ok" not in r:
@@ -198,7 +203,8 @@ def py_checks(case, r):
             if nm in db:
                 for e in db[nm]["entries"]:
                     eb.append([x + 30 for x in e[:-1]] + [e[-1]])
-            if got["entries"] != ea + eb:
+            # a tier holds its entries in (time, label) order: that decides the order of two points landing on one time
+            if got["entries"] != sorted(ea + eb, key=lambda e: tuple(e)):
                 fails.append("tier %s: entries are not A's followed by B's shifted by A's end" % nm)
             if nm in db and (got["min"], got["max"]) != (0, 60):
                 fails.append("tier %s: span %r" % (nm, (got["min"], got["max"])))
